@@ -1,4 +1,9 @@
 
+(** val implb : bool -> bool -> bool **)
+
+let implb b1 b2 =
+  if b1 then b2 else true
+
 (** val negb : bool -> bool **)
 
 let negb = function
@@ -32,6 +37,15 @@ let rec app l m =
   | [] -> m
   | a :: l1 -> a :: (app l1 m)
 
+(** val sub : nat -> nat -> nat **)
+
+let rec sub n0 m =
+  match n0 with
+  | O -> n0
+  | S k -> (match m with
+            | O -> n0
+            | S l -> sub k l)
+
 type positive =
 | XI of positive
 | XO of positive
@@ -45,6 +59,11 @@ type z =
 | Z0
 | Zpos of positive
 | Zneg of positive
+
+(** val eqb : bool -> bool -> bool **)
+
+let eqb b1 b2 =
+  if b1 then b2 else if b2 then false else true
 
 module Nat =
  struct
@@ -257,11 +276,24 @@ let rec nth_error l = function
            | [] -> None
            | _ :: l0 -> nth_error l0 n1)
 
+(** val rev : 'a1 list -> 'a1 list **)
+
+let rec rev = function
+| [] -> []
+| x :: l' -> app (rev l') (x :: [])
+
 (** val map : ('a1 -> 'a2) -> 'a1 list -> 'a2 list **)
 
 let rec map f = function
 | [] -> []
 | a :: t -> (f a) :: (map f t)
+
+(** val fold_left : ('a1 -> 'a2 -> 'a1) -> 'a2 list -> 'a1 -> 'a1 **)
+
+let rec fold_left f l a0 =
+  match l with
+  | [] -> a0
+  | b :: t -> fold_left f t (f a0 b)
 
 (** val existsb : ('a1 -> bool) -> 'a1 list -> bool **)
 
@@ -274,6 +306,24 @@ let rec existsb f = function
 let rec forallb f = function
 | [] -> true
 | a :: l0 -> (&&) (f a) (forallb f l0)
+
+(** val filter : ('a1 -> bool) -> 'a1 list -> 'a1 list **)
+
+let rec filter f = function
+| [] -> []
+| x :: l0 -> if f x then x :: (filter f l0) else filter f l0
+
+(** val find : ('a1 -> bool) -> 'a1 list -> 'a1 option **)
+
+let rec find f = function
+| [] -> None
+| x :: tl0 -> if f x then Some x else find f tl0
+
+(** val seq : nat -> nat -> nat list **)
+
+let rec seq start = function
+| O -> []
+| S len0 -> start :: (seq (S start) len0)
 
 (** val ex_keep :
     (((((nat * n) * z) * z list) * z option) * positive) * bool **)
@@ -803,3 +853,288 @@ let leaf_op h = function
 | SetClass (c, _) -> is_leaf h c
 | DelClass c -> is_leaf h c
 | _ -> true
+
+type vdecl =
+| VNone
+| VDecl of bool * nat * bool
+
+type skarg =
+| SkNone
+| SkFwd
+| SkConst of bool
+
+type oparg =
+| OpNone
+| OpFwd
+| OpNull
+
+type entry =
+| EImpl of nat
+| EAdapt of nat * skarg * oparg
+
+type slot = { s_cls : nat; s_ov : bool; s_nopt : nat; s_fin : bool;
+              s_ent : entry }
+
+type vtable = slot list
+
+(** val mk_adapt : bool -> nat -> bool -> nat -> slot -> slot **)
+
+let mk_adapt askip k ov n0 s =
+  { s_cls = s.s_cls; s_ov = s.s_ov; s_nopt = s.s_nopt; s_fin = s.s_fin;
+    s_ent = (EAdapt (k,
+    (if s.s_ov then SkFwd else if ov then SkConst askip else SkNone),
+    (if Nat.ltb O s.s_nopt
+     then OpFwd
+     else if Nat.ltb O n0 then OpNull else OpNone))) }
+
+(** val declare : bool -> nat -> vdecl -> vtable -> vtable **)
+
+let declare askip i d vt =
+  match d with
+  | VNone -> vt
+  | VDecl (ov, n0, f) ->
+    (match vt with
+     | [] ->
+       { s_cls = i; s_ov = ov; s_nopt = n0; s_fin = f; s_ent = (EImpl
+         i) } :: []
+     | s :: r ->
+       if (&&) (eqb s.s_ov ov) (Nat.eqb s.s_nopt n0)
+       then { s_cls = s.s_cls; s_ov = ov; s_nopt = n0; s_fin = f; s_ent =
+              (EImpl i) } :: (map (mk_adapt askip i ov n0) r)
+       else { s_cls = i; s_ov = ov; s_nopt = n0; s_fin = f; s_ent = (EImpl
+              i) } :: (map (mk_adapt askip i ov n0) (s :: r)))
+
+type chain = (nat * vdecl) list
+
+(** val build : bool -> chain -> vtable -> vtable **)
+
+let rec build askip ch vt =
+  match ch with
+  | [] -> vt
+  | p :: r -> let (i, d) = p in build askip r (declare askip i d vt)
+
+type vres =
+| VBody of nat
+| VEntry of nat * bool
+
+(** val run_entry : slot -> vres **)
+
+let run_entry s =
+  match s.s_ent with
+  | EImpl k -> if s.s_ov then VEntry (k, false) else VBody k
+  | EAdapt (k, sk, _) ->
+    (match sk with
+     | SkNone -> VBody k
+     | SkFwd -> VEntry (k, false)
+     | SkConst b -> VEntry (k, b))
+
+(** val split_at : nat -> chain -> (chain * chain) option **)
+
+let rec split_at t = function
+| [] -> None
+| p :: r ->
+  let (i, d) = p in
+  if Nat.eqb i t
+  then Some (((i, d) :: []), r)
+  else (match split_at t r with
+        | Some p1 -> let (a, b) = p1 in Some (((i, d) :: a), b)
+        | None -> None)
+
+(** val vt_call : bool -> chain -> nat -> vres option **)
+
+let vt_call askip ch t =
+  match split_at t ch with
+  | Some p ->
+    let (pre, post) = p in
+    let vt_t = build askip pre [] in
+    (match vt_t with
+     | [] -> None
+     | hd :: _ ->
+       if hd.s_fin
+       then Some (run_entry hd)
+       else let vt_d = build askip post vt_t in
+            (match nth_error vt_d (sub (length vt_d) (length vt_t)) with
+             | Some s -> Some (run_entry s)
+             | None -> None))
+  | None -> None
+
+type dstate = ((nat * bool) * bool) option
+
+(** val upd_st : dstate -> (nat * vdecl) -> dstate **)
+
+let upd_st st x =
+  match snd x with
+  | VNone -> st
+  | VDecl (ov, _, f) -> Some (((fst x), ov), f)
+
+(** val last_decl : chain -> dstate -> dstate **)
+
+let last_decl ch st =
+  fold_left upd_st ch st
+
+(** val vt_ref : chain -> nat -> vres option **)
+
+let vt_ref ch t =
+  match split_at t ch with
+  | Some p ->
+    let (pre, _) = p in
+    (match last_decl pre None with
+     | Some _ ->
+       (match last_decl ch None with
+        | Some p1 ->
+          let (p2, _) = p1 in
+          let (k, b0) = p2 in
+          if b0 then Some (VEntry (k, false)) else Some (VBody k)
+        | None -> None)
+     | None -> None)
+  | None -> None
+
+(** val wf_chain : chain -> dstate -> bool **)
+
+let rec wf_chain ch st =
+  match ch with
+  | [] -> true
+  | p :: r ->
+    let (i, v) = p in
+    (match v with
+     | VNone -> wf_chain r st
+     | VDecl (ov, _, f) ->
+       (&&)
+         (match st with
+          | Some p1 ->
+            let (p2, f0) = p1 in
+            let (_, ov0) = p2 in (&&) (negb f0) (implb ov0 ov)
+          | None -> true) (wf_chain r (Some ((i, ov), f))))
+
+(** val ext_base : hier -> nat -> nat option **)
+
+let ext_base h c =
+  find (fun i -> is_ext (getc h i)) (getc h c).cmro
+
+(** val chain_of : hier -> vdecl list -> nat -> chain **)
+
+let chain_of h vd e =
+  map (fun i -> (i, (nth i vd VNone))) (rev (getc h e).cmro)
+
+type vop =
+| VBase of op
+| VCallT of nat * nat
+
+(** val interp_cy :
+    bool -> bool -> hier -> world -> nat -> ostate -> vres -> world * result **)
+
+let interp_cy cached fx h w oi o = function
+| VBody k -> (w, (RBody k))
+| VEntry (k, s) -> cbody cached fx h w k s oi o
+
+(** val vstep_cy :
+    bool -> bool -> bool -> hier -> vdecl list -> world -> vop ->
+    world * result option **)
+
+let vstep_cy askip cached fx h vd w = function
+| VBase b -> step_cy cached fx h w b
+| VCallT (t, oi) ->
+  (match nth_error w.w_objs oi with
+   | Some o0 ->
+     (match ext_base h o0.os_cls with
+      | Some e ->
+        (match vt_call askip (chain_of h vd e) t with
+         | Some r ->
+           let (w1, x) = interp_cy cached fx h w oi o0 r in (w1, (Some x))
+         | None -> (w, (Some RInvalid)))
+      | None -> (w, (Some RInvalid)))
+   | None -> (w, (Some RInvalid)))
+
+(** val vstep_py :
+    hier -> vdecl list -> pstate -> vop -> pstate * result option **)
+
+let vstep_py h vd s = function
+| VBase b -> step_py h s b
+| VCallT (t, oi) ->
+  (s, (Some
+    (match nth_error s.p_objs oi with
+     | Some p ->
+       let (c, inst) = p in
+       (match ext_base h c with
+        | Some e ->
+          (match vt_ref (chain_of h vd e) t with
+           | Some v ->
+             (match v with
+              | VBody k -> RBody k
+              | VEntry (_, _) -> dispatch_py h s c inst)
+           | None -> RInvalid)
+        | None -> RInvalid)
+     | None -> RInvalid)))
+
+(** val vrun_cy :
+    bool -> bool -> bool -> hier -> vdecl list -> world -> vop list -> result
+    list **)
+
+let rec vrun_cy askip cached fx h vd w = function
+| [] -> []
+| o :: r ->
+  (match snd (vstep_cy askip cached fx h vd w o) with
+   | Some x ->
+     x :: (vrun_cy askip cached fx h vd
+            (fst (vstep_cy askip cached fx h vd w o)) r)
+   | None ->
+     vrun_cy askip cached fx h vd (fst (vstep_cy askip cached fx h vd w o)) r)
+
+(** val vrun_py : hier -> vdecl list -> pstate -> vop list -> result list **)
+
+let rec vrun_py h vd s = function
+| [] -> []
+| o :: r ->
+  (match snd (vstep_py h vd s o) with
+   | Some x -> x :: (vrun_py h vd (fst (vstep_py h vd s o)) r)
+   | None -> vrun_py h vd (fst (vstep_py h vd s o)) r)
+
+(** val agree_at : hier -> vdecl list -> nat -> bool **)
+
+let agree_at h vd i =
+  match nth i vd VNone with
+  | VNone -> (match (getc h i).cdecl with
+              | MCpdef -> false
+              | _ -> true)
+  | VDecl (ov, _, _) ->
+    if ov
+    then (match (getc h i).cdecl with
+          | MCpdef -> true
+          | _ -> false)
+    else (&&) (is_ext (getc h i))
+           (match (getc h i).cdecl with
+            | MCpdef -> false
+            | _ -> true)
+
+(** val list_eqb : nat list -> nat list -> bool **)
+
+let rec list_eqb a b =
+  match a with
+  | [] -> (match b with
+           | [] -> true
+           | _ :: _ -> false)
+  | x :: a' ->
+    (match b with
+     | [] -> false
+     | y :: b' -> (&&) (Nat.eqb x y) (list_eqb a' b'))
+
+(** val shape_at : hier -> nat -> bool **)
+
+let shape_at h c =
+  match ext_base h c with
+  | Some e ->
+    list_eqb (filter (fun i -> is_ext (getc h i)) (getc h c).cmro)
+      (getc h e).cmro
+  | None -> true
+
+(** val wf_vt : hier -> vdecl list -> bool **)
+
+let wf_vt h vd =
+  (&&)
+    ((&&)
+      ((&&) (Nat.leb (length vd) (length h))
+        (forallb (agree_at h vd) (seq O (length h))))
+      (forallb (shape_at h) (seq O (length h))))
+    (forallb (fun e ->
+      if is_ext (getc h e) then wf_chain (chain_of h vd e) None else true)
+      (seq O (length h)))
